@@ -81,6 +81,26 @@ fn gen(seed: u64, idx: u64, _tier: Tier) -> Plan {
     s.workers = *rng.pick(&[1i64, 1, 2]);
     s.batch_size = *rng.pick(&[1i64, 8, 64]);
     s.log_level = Some(0);
+    // one run in eight boots the repository's own main() instead, under a seeded combination of
+    // the settings that shape the process around the workers (none of them may change which
+    // requests are answered)
+    let full = idx % 8 == 5;
+    if full {
+        plan.scenario = "c12.version_matrix_full_process".into();
+        s.mode = Mode::F;
+        s.workers = *rng.pick(&[1i64, 1, 2, 3]);
+        s.source = if rng.chance(1, 2) { ConfigSource::File } else { ConfigSource::Env };
+        if rng.chance(1, 2) {
+            s.client_stats = Some((*rng.pick(&["on", "yes"])).into());
+            s.persist_dir = Some("/tmp".into());
+        }
+        if rng.chance(1, 2) {
+            s.status_interval = Some(*rng.pick(&[1i64, 10, 600]));
+        }
+        if rng.chance(1, 3) {
+            s.health_port = Some(8000 + rng.below(100) as i64);
+        }
+    }
     world_knobs(&mut rng, &mut plan, false);
     if rng.chance(1, 4) {
         // transient send_to / recv_from errors: what the worker does right after one must not
@@ -96,7 +116,7 @@ fn gen(seed: u64, idx: u64, _tier: Tier) -> Plan {
     plan.params.insert("slice".into(), slice as i64);
     let sockets = 8 + rng.below(40) as u32;
     let mut ctr = seed ^ 0xc12;
-    let mut t = 6000u64;
+    let mut t = if full { 25_000u64 } else { 6000 };
     for j in 0..PER_RUN {
         let k = slice * PER_RUN + j;
         if k >= VARIANTS {
